@@ -281,9 +281,10 @@ impl<M: AlignMarker> Ctx<M> {
             K::Pin => {
                 if a < NGUARD && self.guards[a].is_none() {
                     let g = circ::cs();
-                    let uid = shadow().guard_created(tid);
+                    let local = circ::verif::local_of(&g).local;
+                    let uid = shadow().guard_created_on(tid, local);
                     if self.local_addr == 0 && !self.in_tls {
-                        self.local_addr = circ::verif::local_of(&g).local;
+                        self.local_addr = local;
                     }
                     self.guards[a] = Some(GuardSlot { g, uid });
                 }
@@ -315,9 +316,12 @@ impl<M: AlignMarker> Ctx<M> {
                 }
                 let sh = shadow();
                 sh.guard_released(tid, uid, false);
-                let sole = sh.ucs[tid].guards.len() == 1;
+                // sole among the guards of its own participant (during thread-local destruction a
+                // thread can hold guards of several temporary participants)
+                let sole = sh.ucs[tid].sole_on_participant(uid);
                 let before = if self.local_addr != 0 && !self.in_tls { Some(unsafe { circ::verif::peek_local(self.local_addr) }) } else { None };
                 sh.ucs[tid].suspended = true;
+                sh.ucs[tid].suspended_uid = uid;
                 let me: *mut Ctx<M> = self as *mut Ctx<M>;
                 let gm: &mut Guard = unsafe { &mut (&mut (*me).guards)[a].as_mut().unwrap().g };
                 if o.k == K::Reactivate {
@@ -360,7 +364,7 @@ impl<M: AlignMarker> Ctx<M> {
                 let sh = shadow();
                 sh.ucs[tid].suspended = false;
                 if sole {
-                    sh.cs_restarted(tid);
+                    sh.cs_restarted_for(tid, uid);
                 }
                 // C16: what reactivation did to the announced epoch
                 if let Some(bf) = before {
@@ -1053,8 +1057,14 @@ impl<M: AlignMarker> Ctx<M> {
                 }
             }
             K::Collect => {
-                if let Some((g, _)) = self.guard_ref(a) {
-                    circ::verif::collect(g);
+                // "collect now", through the public API only: flush, then reactivate the guard
+                // (the collection runs while the participant is unpinned, if this is its sole
+                // guard). Calling Global::collect from inside a live critical section is not a
+                // public path: a cascade started there re-announces the participant
+                // (dispose_general_node) and would cut the user's own critical section short.
+                if self.guard_ref(a).is_some() {
+                    self.exec(Op { k: K::Flush, ..o });
+                    self.exec(Op { k: K::Reactivate, ..o });
                 }
             }
             K::QPush | K::QPop | K::QPopIf | K::LIns | K::LDel | K::LTrav => {}
